@@ -60,6 +60,7 @@ type Scenario struct {
 	CrashPM     uint64 // amnesia crash chance per API call of an FAmnesia node
 	StallPM     uint64
 	EarlyTimer  bool
+	EvictPM     uint64 // dyn family: per mille of notified transactions that have left the pool again when the library looks (0: off)
 	HugePool    int   // clock family: this many transactions sit in every pool from the start (0: off)
 	WOFlipIdent int   // identity+1 of a validator whose watch-only flag is set while it runs (0: none)
 	WOFlipAt    int64 // ... at this instant
@@ -686,6 +687,9 @@ func DynScenario(t *Tape) *Scenario {
 	sc.MaxTxPerBlock = 1 + int(t.Draw(SScen, 4))
 	sc.Heights = int(t.Range(SScen, 3, 6))
 	sc.ResetDelay = pick(t, SScen, int64(0), sc.Delta)
+	if sc.MaxTPB > 0 && t.Chance(SScen, 1, 3) {
+		sc.EvictPM = pick(t, SScen, uint64(100), 300, 600)
+	}
 	sc.SlowNode = 0 // a slow responder inflates the primary's round-trip estimate, which the tolerance below does not cover
 	return sc
 }
